@@ -61,6 +61,12 @@ type Gen struct {
 // snapshot.
 const MacroSnapRoundtrip = "Macro/snapshot-ack-wait-seek"
 
+// MacroExhaustedExpires: a delivery that has used up its dead-letter attempts
+// is left alone until its retention is over, then the sweep runs and the
+// dead-letter topic's subscriptions are pulled ("never forwarded after it
+// expired").
+const MacroExhaustedExpires = "Macro/exhausted-then-expired-then-sweep"
+
 func names(prefix string, n int) []string {
 	out := make([]string, n)
 	for i := range out {
@@ -461,6 +467,34 @@ func (g *Gen) Next() Op {
 				at = time.Duration(rapid.Int64Range(0, int64(span)).Draw(t, "seekat"))
 			}
 			return Op{K: k, S: s, At: int64(at)}
+		case MacroExhaustedExpires:
+			var cand []*Del
+			for _, sb := range m.LiveSubs() {
+				if !sb.hasDL() {
+					continue
+				}
+				for _, d := range sb.Dels {
+					if d.State == Out && !d.Fuzzy && !d.ExpUnknown && d.N >= sb.Cfg.attempts() {
+						cand = append(cand, d)
+					}
+				}
+			}
+			if len(cand) == 0 {
+				continue
+			}
+			d := cand[rapid.IntRange(0, len(cand)-1).Draw(t, "macro-del")]
+			wait := d.Exp.Sub(sut.Now()) + 3*Eps
+			if wait <= 0 {
+				continue
+			}
+			var q []Op
+			for _, o := range m.LiveSubs() {
+				if o.Topic == d.Sub.DL {
+					q = append(q, Op{K: OpPull, S: o.Name, Max: 10})
+				}
+			}
+			g.queue = append([]Op{{K: OpSweep, Batch: 1000}}, q...)
+			return Op{K: OpAdvance, D: int64(wait)}
 		case MacroSnapRoundtrip:
 			if len(ls) == 0 {
 				continue
